@@ -600,11 +600,13 @@ class SR:
         return SR(z_)
 
 
-def sym_float(x=0.0):
-    """replacement for builtins.float inside target modules (Python forbids __float__ returning a non-float)"""
-    if isinstance(x, SR):
-        return x
-    return float(x)
+class sym_float(float):
+    """replacement for builtins.float inside target modules (Python forbids __float__ returning a non-float): identity on symbolic
+    values; a subclass of float, so that it still works as `dtype=float` (the numpy proxy recognises `_symfloat`)"""
+    _symfloat = True
+
+    def __new__(cls, x=0.0):
+        return x if isinstance(x, SR) else float(x)
 
 
 class sym_int(int):
